@@ -393,8 +393,7 @@ func expandLoopRender(ip *absint.Interp, b renderedByte, K int) ([]renderedByte,
 	return nil, false
 }
 
-func checkDbChunks(ctx *Ctx, roles *EmitterRoles, lineS *types.Struct, fType, fAddr, fCount int) {
-	R := ctx.R
+func checkDbChunksInductive(ctx *Ctx, roles *EmitterRoles, lineS *types.Struct, fType, fAddr, fCount int, R *oblRecorder) {
 	fn := ctx.Prog.Method("asm", "Emitter", "EmitBytes")
 	if fn == nil {
 		R.Fail("db-chunk", "EmitBytes", "", "(*Emitter).EmitBytes not found")
@@ -537,4 +536,215 @@ func checkDbChunks(ctx *Ctx, roles *EmitterRoles, lineS *types.Struct, fType, fA
 	if n < 2 {
 		R.Fail("db-chunk", "EmitBytes:appends", pos, fmt.Sprintf("%d data-block records appended, want one per full line and one for the remainder", n))
 	}
+}
+
+// oblRecorder collects obligations so that a caller can decide how to report them.
+type oblRecorder struct {
+	items []oblItem
+}
+type oblItem struct {
+	ok                   bool
+	rule, key, pos, text string
+}
+
+func (r *oblRecorder) Fail(rule, key, pos, text string) {
+	r.items = append(r.items, oblItem{false, rule, key, pos, text})
+}
+func (r *oblRecorder) Pass(rule, key, pos, text string) {
+	r.items = append(r.items, oblItem{true, rule, key, pos, text})
+}
+
+// checkDbChunks decides how EmitBytes splits a data block into listing records. The
+// inductive rules (checkDbChunksInductive) prove, for the loop as written today, that
+// line k of any block starts at entry address + 16k and carries its own byte count. A
+// differently written loop (one record per chunk of a counted outer loop, ...) is not
+// matched by them; then the records are computed outright for every block length up to
+// dbBoundedMax (the interpretation follows the single path a constant length leaves,
+// bytes symbolic) and must tile the block: first record at the entry address, each next
+// one where the previous ended, counts adding up to the length.
+const dbBoundedMax = 80
+
+func checkDbChunks(ctx *Ctx, roles *EmitterRoles, lineS *types.Struct, fType, fAddr, fCount int) {
+	R := ctx.R
+	rec := &oblRecorder{}
+	checkDbChunksInductive(ctx, roles, lineS, fType, fAddr, fCount, rec)
+	indOK := true
+	for _, it := range rec.items {
+		if !it.ok {
+			indOK = false
+		}
+	}
+	fn := ctx.Prog.Method("asm", "Emitter", "EmitBytes")
+	bad, pos := "", ""
+	if fn != nil {
+		pos = ctx.Prog.Pos(fn.Pos())
+		bad = dbBoundedTiling(ctx, roles, lineS, fType, fAddr, fCount, fn)
+	}
+	switch {
+	case bad != "":
+		// wrong at a concrete length: report that, and what the inductive rules said
+		R.Fail("db-chunk", "EmitBytes:tiling", pos, bad)
+		for _, it := range rec.items {
+			if !it.ok {
+				R.Fail(it.rule, it.key, it.pos, it.text)
+			}
+		}
+	case indOK:
+		for _, it := range rec.items {
+			R.Pass(it.rule, it.key, it.pos, it.text)
+		}
+		R.Pass("db-chunk", "EmitBytes:tiling", pos, fmt.Sprintf("block lengths 0..%d: the records tile the block (and, by the inductive rules, so do those of every length)", dbBoundedMax))
+	default:
+		var why []string
+		for _, it := range rec.items {
+			if !it.ok {
+				why = append(why, it.key+": "+it.text)
+			}
+		}
+		R.Pass("db-chunk", "EmitBytes:tiling", pos, fmt.Sprintf("block lengths 0..%d: the records tile the block; the loop is not in the form the inductive rules recognise, so longer blocks are not decided (%s)", dbBoundedMax, trunc(strings.Join(why, "; "))))
+	}
+}
+
+// dbBoundedTiling computes the data records of EmitBytes for each constant block length.
+func dbBoundedTiling(ctx *Ctx, roles *EmitterRoles, lineS *types.Struct, fType, fAddr, fCount int, fn *ssa.Function) string {
+	S := roles.Struct
+	for LL := 0; LL <= 2*dbBoundedMax+1; LL++ {
+		// every length with the emitter's other boolean switches (base directive already
+		// emitted or not) both ways; no target buffer, so that capacity plays no part
+		L, switches := LL/2, LL%2 == 1
+		ip := absint.New()
+		ip.UnrollLoops = true
+		forked := false
+		ip.Hooks.Branch = func(*absint.Interp, *absint.Bool, *ssa.If) { forked = true }
+		// strings.Builder: only its length matters (and only where the code asks for it)
+		blen := map[string]int{}
+		known := map[string]bool{}
+		ip.Hooks.ExtCall = func(ip *absint.Interp, st *absint.State, ev *absint.Event) (absint.Val, bool) {
+			if !strings.HasPrefix(ev.Callee, "(*strings.Builder).") || len(ev.Args) == 0 {
+				return nil, false
+			}
+			id := absint.ValKey(ev.Args[0])
+			if _, seen := known[id]; !seen {
+				known[id] = true
+			}
+			add := func(n int, ok bool) {
+				if ok {
+					blen[id] += n
+				} else {
+					known[id] = false
+				}
+			}
+			switch ev.Callee[len("(*strings.Builder)."):] {
+			case "Reset":
+				blen[id], known[id] = 0, true
+				return nil, true
+			case "WriteString":
+				if s, ok := ev.Args[1].(*absint.Str); ok && s.Known {
+					add(len(s.S), true)
+				} else {
+					add(0, false)
+				}
+				return &absint.Tuple{E: []absint.Val{absint.NewConst(64, 0, true), &absint.Top{Key: "nil"}}}, true
+			case "Write":
+				if sl, ok := ev.Args[1].(*absint.Slice); ok {
+					if n, isC := sl.Len.IsConst(); isC {
+						add(int(n), true)
+					} else {
+						add(0, false)
+					}
+				} else {
+					add(0, false)
+				}
+				return &absint.Tuple{E: []absint.Val{absint.NewConst(64, 0, true), &absint.Top{Key: "nil"}}}, true
+			case "WriteByte":
+				add(1, true)
+				return &absint.Top{Key: "nil"}, true
+			case "WriteRune":
+				add(0, false)
+				return &absint.Tuple{E: []absint.Val{absint.NewConst(64, 0, true), &absint.Top{Key: "nil"}}}, true
+			case "Len":
+				if known[id] {
+					return absint.NewConst(64, uint64(blen[id]), true), true
+				}
+				return nil, false
+			case "String":
+				return &absint.Str{}, true
+			case "Grow":
+				return nil, true
+			}
+			return nil, false
+		}
+		recv := &absint.Ptr{Nil: absint.TriF, Obj: ip.SymObj("a", roles.Named), T: roles.Named}
+		st := &absint.State{Heap: absint.NewHeap(nil)}
+		ip.Store(st, fieldPtr(recv, S.Field(roles.GenText).Type(), roles.GenText), S.Field(roles.GenText).Type(), &absint.Bool{K: absint.TriT})
+		for fi := 0; fi < S.NumFields(); fi++ {
+			if bt, ok := S.Field(fi).Type().Underlying().(*types.Basic); ok && bt.Kind() == types.Bool && fi != roles.GenText {
+				k := absint.TriF
+				if switches {
+					k = absint.TriT
+				}
+				ip.Store(st, fieldPtr(recv, S.Field(fi).Type(), fi), S.Field(fi).Type(), &absint.Bool{K: k})
+			}
+		}
+		ct := S.Field(roles.Code).Type()
+		if cv, ok := ip.Load(st, fieldPtr(recv, ct, roles.Code), ct).(*absint.Slice); ok {
+			ip.Store(st, fieldPtr(recv, ct, roles.Code), ct, &absint.Slice{Nil: absint.TriT, ElemT: cv.ElemT, Off: absint.NewConst(64, 0, true), Len: absint.NewConst(64, 0, true), Cap: absint.NewConst(64, 0, true)})
+		}
+		bt := types.NewSlice(types.Typ[types.Byte])
+		bv, _ := ip.Load(st, &absint.Ptr{Obj: ip.SymObj("b", types.NewPointer(bt))}, bt).(*absint.Slice)
+		if bv == nil {
+			return "cannot build a symbolic data block"
+		}
+		bv.Nil = absint.TriF
+		bv.Len = absint.NewConst(64, uint64(L), true)
+		bv.Cap = absint.NewConst(64, uint64(L), true)
+		entry, _ := ip.Load(st, fieldPtr(recv, S.Field(roles.Address).Type(), roles.Address), S.Field(roles.Address).Type()).(*absint.Int)
+		_, out := ip.Call(fn, []absint.Val{recv, bv}, nil, st)
+		var imp []string
+		for _, m := range ip.Imprec {
+			if !strings.Contains(m, "unmodelled external") {
+				imp = append(imp, m)
+			}
+		}
+		if len(imp) > 0 || forked || entry == nil {
+			return fmt.Sprintf("block length %d: the records cannot be computed (%v, undecided branch: %v)", L, imp, forked)
+		}
+		if out == nil {
+			continue // refused (does not fit): nothing recorded is part of the program
+		}
+		next := uint64(0)
+		for _, ev := range ip.Events {
+			if ev.Kind != "append" || len(ev.Args) != 2 {
+				continue
+			}
+			r, ok := ev.Args[1].(*absint.Struct)
+			if !ok || r.T != lineS {
+				continue
+			}
+			cnt, _ := r.F[fCount].(*absint.Int)
+			adr, _ := r.F[fAddr].(*absint.Int)
+			if cnt == nil || adr == nil {
+				return fmt.Sprintf("block length %d: a record without address or count", L)
+			}
+			c, isC := cnt.IsConst()
+			if !isC {
+				return fmt.Sprintf("block length %d: a record's byte count is not determined by the length (%s)", L, trunc(cnt.Lin.Key()))
+			}
+			if c == 0 {
+				continue // directive records (base) carry no bytes
+			}
+			off, isC := ip.Ops.Sub(adr, entry).IsConst()
+			if !isC {
+				return fmt.Sprintf("block length %d: a record's address is %s, not the entry address plus a constant", L, trunc(adr.Lin.Key()))
+			}
+			if off != next {
+				return fmt.Sprintf("block length %d: a record starts at entry+%d, the previous one ended at entry+%d", L, off, next)
+			}
+			next += c
+		}
+		if next != uint64(L) {
+			return fmt.Sprintf("block length %d: the records cover %d bytes", L, next)
+		}
+	}
+	return ""
 }
